@@ -65,6 +65,8 @@ type JobResult struct {
 	Error       string            `json:"error,omitempty"`
 	Solver      string            `json:"solver"`
 	StaticSites []string          `json:"static_sites"`
+	Fallbacks   int               `json:"fallbacks"`
+	FallbackOK  int               `json:"fallback_ok"`
 }
 
 func runWorker(jobJSON string) {
@@ -112,6 +114,8 @@ func execJob(job *Job) *JobResult {
 		ms = 10000
 	}
 	eng.X.S = interp.NewSolver(bin, ms, job.QueryLog)
+	eng.X.S.Fallback = []string{"z3-new", "cvc5"}
+	eng.X.S.FallbackMs = 30000
 	res.Solver = bin
 	for _, k := range job.Known {
 		eng.X.KnownNames[k] = true
@@ -147,6 +151,7 @@ func execJob(job *Job) *JobResult {
 	res.BoundHit, res.QueueLeft = x.BoundHit, x.QueueLeft
 	res.Queries, res.Sat, res.Unsat, res.Unknown = x.S.Queries, x.S.Sat, x.S.Unsat, x.S.Unknown
 	res.SolverS = x.S.Time.Seconds()
+	res.Fallbacks, res.FallbackOK = x.S.Fallbacks, x.S.FallbackOK
 	res.Funcs = encodedFuncs(eng.Funcs)
 	res.StaticSites = staticAssertSites(entry)
 	for _, f := range res.Findings {
